@@ -87,7 +87,7 @@ Theorem squeeze_reshape_dense (T : dense V) s1 :
     end.
 Proof.
   intros W Hs Hpos. exists (np_reshapeF v0 T s1). unfold reshape_d at 1. rewrite <- Hs, Nat.eqb_refl.
-  split; [reflexivity|]. rewrite (reshapeF_mk T s1 W Hs). unfold squeeze_d. cbn [dshape ddata].
+  split; [reflexivity|]. rewrite (reshapeF_mk T s1 W Hs). rewrite squeeze_d_pos_eq by (cbn [dshape]; exact Hpos). unfold squeeze_d_pos. cbn [dshape ddata].
   destruct (forallb (Nat.ltb 1) s1) eqn:E1.
   - rewrite sqz_all by auto. unfold reshape_d. rewrite <- Hs, Nat.eqb_refl. now rewrite (reshapeF_mk T s1 W Hs).
   - destruct (sqz s1 s1) as [|d s2] eqn:Esq; [split; reflexivity|].
